@@ -738,6 +738,8 @@ Definition do_renominate (cfg : config) (l r : cand) (v : Z) : M :=
       match op with
       | None => emit (ORet RErrPairNotFound)
       | Some p =>
+        (* only a validated pair can be nominated (a lite peer selects on the nomination alone) *)
+        if negb (p_state p =? CandidatePairStateSucceeded) then emit (ORet RErrPairNotSucceeded) else
         fresh_tx (fun tx => with_state (fun s =>
             request_msg s cfg tx true (c_prio (p_loc p)) (if 0 <? v then Some v else None))
             (fun m => send_binding_request cfg m (p_loc p) (p_rem p))) ;;
